@@ -109,6 +109,7 @@ pub(crate) fn info_of(g: &Geo, size: u64, read_only: bool, backing_dev: bool, ha
 // @harness spec_selftest
 // @props C15 C09 C01 C03 C08
 // @tier quick
+// @cost 1
 // @timeout 120
 // @desc the independent spec model reproduces the specification's worked numbers (model self-test)
 // @bounds concrete
@@ -272,7 +273,7 @@ fn $name() {
 // @harness c14_header_fields
 // @props C14 C09
 // @tier quick
-// @cost 120
+// @cost 52
 // @timeout 900
 // @cbmc --max-field-sensitivity-array-size 256
 // @desc Qcow2Header::from_buf on a 120-byte v2/v3 header (no backing name, END extension) whose numeric fields are ALL symbolic: never panics; Ok => version >= 2, 9 <= cluster_bits <= 21, both table offsets cluster aligned, crypt_method == 0 (encryption is unsupported and must be refused), refcount_order <= 6, a refcount table of 1..=8 MiB/cluster_size clusters (so the table buffer sized from the header is neither empty nor out of proportion); every spec-valid supported v3 header is accepted and the getters return the field values
@@ -284,7 +285,7 @@ header_fields!(c14_header_fields, 3);
 // @harness c14_header_fields_v2
 // @props C14 C09
 // @tier quick
-// @cost 120
+// @cost 42
 // @timeout 900
 // @cbmc --max-field-sensitivity-array-size 256
 // @desc Qcow2Header::from_buf on a 120-byte v2/v3 header (no backing name, END extension) whose numeric fields are ALL symbolic: never panics; Ok => version >= 2, 9 <= cluster_bits <= 21, both table offsets cluster aligned, crypt_method == 0 (encryption is unsupported and must be refused), refcount_order <= 6, a refcount table of 1..=8 MiB/cluster_size clusters (so the table buffer sized from the header is neither empty nor out of proportion); every spec-valid supported v3 header is accepted and the getters return the field values
@@ -296,7 +297,7 @@ header_fields!(c14_header_fields_v2, 2);
 // @harness c14_header_fields_v1
 // @props C14 C09
 // @tier quick
-// @cost 120
+// @cost 14
 // @timeout 900
 // @cbmc --max-field-sensitivity-array-size 256
 // @desc Qcow2Header::from_buf on a 120-byte v2/v3 header (no backing name, END extension) whose numeric fields are ALL symbolic: never panics; Ok => version >= 2, 9 <= cluster_bits <= 21, both table offsets cluster aligned, crypt_method == 0 (encryption is unsupported and must be refused), refcount_order <= 6, a refcount table of 1..=8 MiB/cluster_size clusters (so the table buffer sized from the header is neither empty nor out of proportion); every spec-valid supported v3 header is accepted and the getters return the field values
@@ -308,7 +309,7 @@ header_fields!(c14_header_fields_v1, 1);
 // @harness c14_header_fields_v4
 // @props C14 C09
 // @tier quick
-// @cost 120
+// @cost 45
 // @timeout 900
 // @cbmc --max-field-sensitivity-array-size 256
 // @desc Qcow2Header::from_buf on a 120-byte v2/v3 header (no backing name, END extension) whose numeric fields are ALL symbolic: never panics; Ok => version >= 2, 9 <= cluster_bits <= 21, both table offsets cluster aligned, crypt_method == 0 (encryption is unsupported and must be refused), refcount_order <= 6, a refcount table of 1..=8 MiB/cluster_size clusters (so the table buffer sized from the header is neither empty nor out of proportion); every spec-valid supported v3 header is accepted and the getters return the field values
@@ -320,6 +321,7 @@ header_fields!(c14_header_fields_v4, 4);
 // @harness c14_header_short
 // @props C14
 // @tier quick
+// @cost 10
 // @timeout 600
 // @desc Qcow2Header::from_buf on ANY byte string shorter than the fixed header (0..=104 bytes): returns Err, never panics
 // @bounds length 0..=104 symbolic, content arbitrary
@@ -373,6 +375,7 @@ macro_rules! ext_parse {
 // @harness c14_ext_feature_table_1
 // @props C14
 // @tier quick
+// @cost 2
 // @timeout 600
 // @desc private Qcow2HeaderExtension::from on a feature-name-table extension whose data length is 1 (a truncated entry): never panics
 // @bounds data length 1 (concrete), content arbitrary
@@ -386,6 +389,7 @@ ext_parse!(c14_ext_feature_table_1, 0x6803f857, 1);
 // @harness c14_ext_feature_table_3
 // @props C14
 // @tier quick
+// @cost 6
 // @timeout 600
 // @desc feature-name-table extension with a 3-byte (short but >= 2) entry: never panics
 // @bounds data length 3 (concrete), content arbitrary
@@ -399,6 +403,7 @@ ext_parse!(c14_ext_feature_table_3, 0x6803f857, 3);
 // @harness c14_ext_feature_table_49
 // @props C14
 // @tier quick
+// @cost 6
 // @timeout 900
 // @desc feature-name-table extension with one full 48-byte entry followed by a 1-byte remainder: never panics
 // @bounds data length 49 (concrete), content arbitrary
@@ -412,6 +417,7 @@ ext_parse!(c14_ext_feature_table_49, 0x6803f857, 49);
 // @harness c14_ext_unknown_9
 // @props C14 C15
 // @tier quick
+// @cost 23
 // @timeout 600
 // @desc an extension of unknown type with 9 data bytes is kept verbatim (type and data length)
 // @bounds data length 9 (concrete), content arbitrary; type 0x12345678
@@ -422,6 +428,7 @@ ext_parse!(c14_ext_unknown_9, 0x12345678, 9);
 // @harness c14_ext_end_8
 // @props C14
 // @tier quick
+// @cost 2
 // @timeout 600
 // @desc the END extension terminates the walk whatever its data
 // @bounds data length 8, content arbitrary
@@ -432,6 +439,7 @@ ext_parse!(c14_ext_end_8, 0, 8);
 // @harness c14_ext_backing_format_4
 // @props C14
 // @tier quick
+// @cost 9
 // @timeout 900
 // @desc backing-file-format extension with 4 arbitrary bytes: Ok for valid UTF-8, Err otherwise, never panics
 // @bounds data length 4 (concrete), content arbitrary
@@ -514,7 +522,7 @@ ext_parse!(c14_ext_backing_format_1, 0xe2792aca, 1);
 // @harness c15_header_serialize
 // @props C15 C16
 // @tier quick
-// @cost 120
+// @cost 52
 // @timeout 1200
 // @cbmc --max-field-sensitivity-array-size 256
 // @desc a header with arbitrary numeric fields and no extensions is serialised by serialize_to_buf to exactly 120 bytes (112-byte header, a multiple of 8, plus the END extension) and EVERY byte equals the specification's layout (big-endian fields at the spec's offsets, header_length 112, zero padding, END marker) -- the same layout whose parsing c14_header_fields decides, so parse(serialize(h)) == h follows for these headers
@@ -678,7 +686,7 @@ macro_rules! ext_walk {
 // @harness c14_ext_walk_17
 // @props C14
 // @tier quick
-// @cost 60
+// @cost 22
 // @timeout 900
 // @cbmc --max-field-sensitivity-array-size 256
 // @desc same walk, extension data running one byte past the end of the buffer (but far inside the first cluster): refused with Err, no panic
@@ -690,7 +698,7 @@ ext_walk!(c14_ext_walk_17, 17);
 // @harness c14_ext_walk_4096
 // @props C14
 // @tier quick
-// @cost 60
+// @cost 19
 // @timeout 900
 // @cbmc --max-field-sensitivity-array-size 256
 // @desc same walk, extension length 4096 (past the buffer, inside the cluster): refused with Err, no panic
@@ -702,7 +710,7 @@ ext_walk!(c14_ext_walk_4096, 4096);
 // @harness c14_ext_walk_max
 // @props C14
 // @tier quick
-// @cost 60
+// @cost 20
 // @timeout 900
 // @cbmc --max-field-sensitivity-array-size 256
 // @desc same walk, extension length 0xffffffff (past the first cluster): refused with Err, no overflow
@@ -714,7 +722,7 @@ ext_walk!(c14_ext_walk_max, u32::MAX);
 // @harness c09_header_v2
 // @props C09 C14
 // @tier quick
-// @cost 60
+// @cost 34
 // @timeout 900
 // @cbmc --max-field-sensitivity-array-size 256
 // @desc a spec-valid VERSION 2 header (72 bytes, followed by the END extension, the rest of the sector zero or arbitrary) is accepted and gets the defaults the specification defines for version 2: refcount_order 4, header_length 72 (so the extension walk starts right behind the 72-byte header and finds no extension), no feature bits; the v2 numeric fields are returned unchanged
